@@ -188,6 +188,10 @@ instance : Num Int where
   eq := fun a b => a == b
   ofText := intOfText
   display := toString
+  toDec := fun n => (n, 0)
+  ofDec := fun m e => if e ≥ 0 then m * 10 ^ e.toNat else m / 10 ^ (-e).toNat
+  kernel1 := fun _ x => x
+  kernel2 := fun _ x _ => x
 
 instance : LawfulNum Int where
   lt_irrefl := by intro a; simp [Num.lt]
